@@ -223,7 +223,7 @@ def run_cases(cases, ctx):
             m, mi, rk, nv = case["m"], case["mi"], case["rk"], case["nv"]
             ser = sers[ci % 4]
             tr = {"m": m, "rk": rk, "nv": nv, "ran": False, "bystanders": 0, "changed": False, "reply": "", "meta_method": False,
-                  "meta_attr": False, "meta_oneway": False, "meta_extra": False, "ser": ser}
+                  "meta_attr": False, "meta_oneway": False, "meta_extra": False, "ser": ser, "extra": False}
             try:
                 if mi not in built:
                     built.clear()
@@ -251,10 +251,16 @@ def run_cases(cases, ctx):
                     if ser == "serpent":
                         calls = [tuple(c) for c in calls]
                     data = L.invoke_msg(oid, "<batch>", calls, flags=flags, ser=ser)
-                elif rk == "getattr":
-                    data = L.invoke_msg(oid, "__getattr__", [req], ser=ser)
                 else:
-                    data = L.invoke_msg(oid, "__setattr__", [req, 99], ser=ser)
+                    # an attribute request normally carries the name (and the value); a peer may add anything it likes: further
+                    # positional arguments, keyword arguments.  Such a request may be refused, but it must not reach more
+                    xa = [(), (), (False,), (0, None), (None, False, False)][ci % 5]
+                    xk = [None, {"only_exposed": False}, None, {"only_exposed": 0, "x": 1}, None][ci % 5]
+                    tr["extra"] = bool(xa or xk)
+                    if rk == "getattr":
+                        data = L.invoke_msg(oid, "__getattr__", [req] + list(xa), kwargs=xk, ser=ser)
+                    else:
+                        data = L.invoke_msg(oid, "__setattr__", [req, 99] + list(xa), kwargs=xk, ser=ser)
                 tr["reply"], r = exchange(data)
                 tr["bystanders"] = log.count("bystander")
                 tr["ran"] = any(x != "bystander" for x in log)
